@@ -118,6 +118,17 @@ class History:
         return d.current.cmd if d is not None else None
 
 
+class OneShot(EventListener):
+    def __init__(self, sim, et):
+        self.sim = sim
+        self.et = et
+        self.n = 0
+
+    def notify(self, event):
+        self.n += 1
+        self.sim.remove_listener(self.et, self)
+
+
 class Collector(EventListener):
     def __init__(self, hist, hooks=None):
         self.hist = hist
@@ -424,6 +435,16 @@ class Runner:
             except Exception as e:
                 out = "refused:" + type(e).__name__
             H.append(("req", owner, idx, out, before, sim.eventlist().size()))
+        elif kind == "repre":
+            before = sim.eventlist().size()
+            try:
+                ev = model.prebuilt[a[1]]
+                sim.schedule_event(ev)
+                sim.cancel_event(ev)
+                out = "removed" if sim.eventlist().size() == before else "still-pending"
+            except Exception as e:
+                out = "error:" + type(e).__name__
+            H.append(("req", owner, idx, out, before, sim.eventlist().size()))
         elif kind == "cancel":
             ev = model.handles.get(a[1])
             if ev is None:
@@ -671,7 +692,13 @@ class Runner:
             raise ValueError("unknown command %r" % (cmd,))
 
     def subscribe(self):
-        for _, et in SIM_EVENT_TYPES:
+        ones = self.case.get("oneshot_listeners") or ()
+        for name, et in SIM_EVENT_TYPES:
+            if name in ones:
+                # a one-shot subscriber registered BEFORE the recorder: it unsubscribes
+                # itself from inside its first notification; the subscribers after it
+                # must still get that notification
+                self.sim.add_listener(et, OneShot(self.sim, et))
             self.sim.add_listener(et, self.collector)
 
     def do_cmd(self, cmd):
